@@ -31,6 +31,7 @@ import SF.Proofs.UbjEncTop
 import SF.Proofs.JsonEncTop
 import SF.Proofs.JsonRefineTop
 import SF.Proofs.UbjChunkTop
+import SF.Proofs.FoldFaultTop
 namespace SF.Props.C16
 open SF SF.Cbor SF.Cbor.Enc
 
@@ -348,3 +349,54 @@ example : (parse (init (some 3)) SF.Props.UbjChunk.doc).2 = some .visitor ∧
   decide +kernel
 
 end SF.PropsUbjP.C16
+
+
+/-! ## gotype Fold (mirror SF/Gotype/Fold.lean; proofs SF/Proofs/FoldFault{Core,Opts,Run,Top}.lean)
+
+Unconditional: EVERY type (supported or not), EVERY value, every option record, every fault index.
+Only `deliver` reads the fault index and every control structure of the folders hands the first
+non-ok result to its caller unchanged. -/
+
+namespace SF.PropsFold.C16
+open SF SF.Gotype SF.Gotype.Fold
+open SF.FoldProofs.Fault (truncate)
+
+/-- C16 for Fold, the whole statement in one equation: the fold on a visitor failing at its k-th
+event IS the fold on the healthy visitor truncated at the fault — the first k+1 events and the
+visitor's error when the healthy fold delivers more than k events, unchanged otherwise -/
+theorem fold_fault_truncates (o : FoldOpts) (T : GoType) (v : GoVal) (k : Nat)
+    (hk : o.failAt = some k) :
+    impl o T v = truncate k (impl { o with failAt := none } T v) :=
+  SF.FoldProofs.Fault.fold_fault_truncates o T v k hk
+
+/-- … spelled out: either the fault was never reached (at most k events, result as without the
+fault), or Fold returns THE VISITOR'S error and the failing event is the last one delivered;
+what was delivered is a prefix of the healthy stream: nothing after the error, the error never
+swallowed and never replaced -/
+theorem fold_propagates_visitor_error (o : FoldOpts) (T : GoType) (v : GoVal) (k : Nat)
+    (hk : o.failAt = some k) :
+    ((impl o T v).evs.length ≤ k ∧ impl o T v = impl { o with failAt := none } T v ∨
+     (impl o T v).res = .err .injected ∧ (impl o T v).evs.length = k + 1 ∧
+       k < (impl { o with failAt := none } T v).evs.length) ∧
+    (impl o T v).evs <+: (impl { o with failAt := none } T v).evs :=
+  SF.FoldProofs.Fault.fold_propagates_visitor_error o T v k hk
+
+/-- a fold that does NOT return the visitor's error did not reach the fault -/
+theorem fold_ok_means_fault_not_reached (o : FoldOpts) (T : GoType) (v : GoVal) (k : Nat)
+    (hk : o.failAt = some k) (hok : (impl o T v).res ≠ .err .injected) :
+    (impl o T v).evs.length ≤ k ∧ impl o T v = impl { o with failAt := none } T v :=
+  SF.FoldProofs.Fault.fold_ok_means_fault_not_reached o T v k hk hok
+
+/-- non-vacuity: `map[string][]*int32{"a": {nil, &5}, "b": nil}` — 10 events on a healthy visitor;
+with a fault at event 3 the visitor's error comes back after exactly 4 events; a fault index
+beyond the stream is never reached -/
+example :
+    let T : GoType := .map .string (.slice (.ptr (.int .i32)))
+    let v : GoVal := .map [(.str [97], .slice [.nilPtr, .ptr (.int 5)]), (.str [98], .nilSlice)]
+    (impl {} T v).res = .ok ∧ (impl {} T v).evs.length = 10 ∧
+    (impl { failAt := some 3 } T v).res = .err .injected ∧
+    (impl { failAt := some 3 } T v).evs = (impl {} T v).evs.take 4 ∧
+    (impl { failAt := some 10 } T v).res = .ok ∧
+    (impl { failAt := some 10 } T v).evs = (impl {} T v).evs := by decide +kernel
+
+end SF.PropsFold.C16
